@@ -92,10 +92,17 @@ func (c JSONMapCodec) appendKV(data []byte, k string, v any) []byte {
 
 func (c JSONMapCodec) Read(data []byte, ptr unsafe.Pointer, wt plenccore.WireType) (n int, err error) {
 	count, n := plenccore.ReadVarUint(data)
-	if n == 0 {
+	if n == 0 && len(data) == 0 {
 		return 0, nil
 	}
+	if n <= 0 {
+		return 0, fmt.Errorf("bad count in map")
+	}
 	offset := n
+	// Every entry takes at least one byte for its length
+	if count > uint64(len(data)-offset) {
+		return 0, fmt.Errorf("count %d of map exceeds data length", count)
+	}
 
 	m := *(*map[string]any)(ptr)
 	if m == nil {
@@ -105,10 +112,13 @@ func (c JSONMapCodec) Read(data []byte, ptr unsafe.Pointer, wt plenccore.WireTyp
 
 	for ; count > 0; count-- {
 		l, n := plenccore.ReadVarUint(data[offset:])
-		if n < 0 {
+		if n <= 0 {
 			return 0, fmt.Errorf("bad length in map")
 		}
 		offset += n
+		if l > uint64(len(data)-offset) {
+			return 0, fmt.Errorf("length %d of map entry exceeds data length", l)
+		}
 		var key string
 		var val any
 
@@ -173,7 +183,14 @@ func (c JSONArrayCodec) append(data []byte, ptr unsafe.Pointer) []byte {
 
 func (c JSONArrayCodec) Read(data []byte, ptr unsafe.Pointer, wt plenccore.WireType) (n int, err error) {
 	count, n := plenccore.ReadVarUint(data)
+	if n < 0 || (n == 0 && len(data) != 0) {
+		return 0, fmt.Errorf("bad count in array")
+	}
 	offset := n
+	// Every entry takes at least one byte for its length
+	if count > uint64(len(data)-offset) {
+		return 0, fmt.Errorf("count %d of array exceeds data length", count)
+	}
 
 	a := *(*[]any)(ptr)
 	if a == nil {
@@ -183,10 +200,13 @@ func (c JSONArrayCodec) Read(data []byte, ptr unsafe.Pointer, wt plenccore.WireT
 
 	for i := range a {
 		l, n := plenccore.ReadVarUint(data[offset:])
-		if n < 0 {
-			return 0, fmt.Errorf("bad length in map")
+		if n <= 0 {
+			return 0, fmt.Errorf("bad length in array")
 		}
 		offset += n
+		if l > uint64(len(data)-offset) {
+			return 0, fmt.Errorf("length %d of array entry exceeds data length", l)
+		}
 
 		n, err := readJSONKV(data[offset:offset+int(l)], nil, &a[i])
 		if err != nil {
@@ -302,15 +322,24 @@ func readJSONKV(data []byte, key *string, val *any) (n int, err error) {
 
 	for offset < len(data) {
 		wt, index, n := plenccore.ReadTag(data[offset:])
+		if n <= 0 {
+			return 0, fmt.Errorf("invalid field tag in JSON entry")
+		}
 		offset += n
 		switch index {
 		case 1:
 			// When using this for reading arrays we simply don't see this index
+			if key == nil {
+				return 0, fmt.Errorf("unexpected key in JSON array entry")
+			}
 			l, n := plenccore.ReadVarUint(data[offset:])
-			if n < 0 {
+			if n <= 0 {
 				return 0, fmt.Errorf("bad length on string field")
 			}
 			offset += n
+			if l > uint64(len(data)-offset) {
+				return 0, fmt.Errorf("bad length on string field. Length %d exceeds data length", l)
+			}
 
 			n, err := StringCodec{}.Read(data[offset:offset+int(l)], unsafe.Pointer(key), wt)
 			if err != nil {
@@ -319,7 +348,7 @@ func readJSONKV(data []byte, key *string, val *any) (n int, err error) {
 			offset += n
 		case 2:
 			v, n := plenccore.ReadVarUint(data[offset:])
-			if n < 0 {
+			if n <= 0 {
 				return 0, fmt.Errorf("invalid map type field")
 			}
 			jType = jsonType(v)
@@ -328,10 +357,13 @@ func readJSONKV(data []byte, key *string, val *any) (n int, err error) {
 			switch jType {
 			case jsonTypeString:
 				l, n := plenccore.ReadVarUint(data[offset:])
-				if n < 0 {
+				if n <= 0 {
 					return 0, fmt.Errorf("bad length on string field")
 				}
 				offset += n
+				if l > uint64(len(data)-offset) {
+					return 0, fmt.Errorf("bad length on string field. Length %d exceeds data length", l)
+				}
 				var v string
 				n, err := StringCodec{}.Read(data[offset:offset+int(l)], unsafe.Pointer(&v), wt)
 				if err != nil {
@@ -387,10 +419,13 @@ func readJSONKV(data []byte, key *string, val *any) (n int, err error) {
 
 			case jsonTypeNumber:
 				l, n := plenccore.ReadVarUint(data[offset:])
-				if n < 0 {
+				if n <= 0 {
 					return 0, fmt.Errorf("bad length on JSON number field")
 				}
 				offset += n
+				if l > uint64(len(data)-offset) {
+					return 0, fmt.Errorf("bad length on JSON number field. Length %d exceeds data length", l)
+				}
 				var v json.Number
 				n, err := StringCodec{}.Read(data[offset:offset+int(l)], unsafe.Pointer(&v), wt)
 				if err != nil {
